@@ -7,4 +7,8 @@ RRepeats == {33}
 RFactors == {<<2, 1>>}
 ROps == {"Add", "Merge", "Clear", "CopyTo"}
 RInit == (1 :> NewStore("low", 2)) @@ (2 :> NewStore("low", 3))
+RSlotKeys == (1 :> {0, 2, 4}) @@ (2 :> {0, 2, 4})
+RAsc == {}
+RDesc == {}
+RPairs == {}
 ====
